@@ -112,15 +112,6 @@ func c06Gen(t *rapid.T) c06Case {
 		}
 		return c
 	}
-	if rapid.IntRange(0, 19).Draw(t, "skeleton3") == 0 {
-		// a high trigger rate: hundreds of records per channel and block, block after block, without a pause or stop in between
-		m := rapid.IntRange(1, 3).Draw(t, "typesH")
-		c.Ops = append(c.Ops, c06Op{Kind: "wc", Request: "START", LJH22: m&1 != 0, LJH3: m&2 != 0})
-		for k := rapid.IntRange(2, 4).Draw(t, "nbig"); k > 0; k-- {
-			c.Ops = append(c.Ops, c06Op{Kind: "publish", Nsamp: rapid.IntRange(400, 700).Draw(t, "bign")})
-		}
-		return c
-	}
 	if rapid.IntRange(0, 5).Draw(t, "skeleton2") == 0 {
 		// the operator deletes an earlier run of the day between two sessions: the directory numbers have a hole
 		start := func(label string) c06Op {
